@@ -33,3 +33,30 @@ Theorem C19_manipulations_exact :
     (forall s : bytes, m_sigvalue (cc_manip c) = s -> s <> [] -> raw_of fx s = Some (t_sig t)).
 Proof. exact manipulations_exact. Qed.
 Print Assumptions C19_manipulations_exact.
+
+(* a manipulation that names an algorithm puts exactly that object identifier, without parameters, into the field it names;
+   a version manipulation puts exactly that number.  Stated at the switches that describe /repo now (F18 repaired: a value
+   that is no object identifier is an error and never gets this far). *)
+Theorem C19_named_algorithms_exact :
+  forall (sha1 : bytes -> bytes) (c : cert_cfg) (o : observed) (iss : option (list rdn * bytes)) (t : tcert),
+    gen_tcert cur_fx cur_mfx sha1 c o iss = Some t ->
+    (forall s, m_tbs_sigalg (cc_manip c) = s -> s <> [] ->
+       exists zs ns, oid_from_string s = Some zs /\ arcs_to_N zs = Some ns /\ t_inner t = mkAlg ns None) /\
+    (forall s, m_outer_sigalg (cc_manip c) = s -> s <> [] ->
+       exists zs ns, oid_from_string s = Some zs /\ arcs_to_N zs = Some ns /\ t_outer t = mkAlg ns None) /\
+    (forall s, m_tbs_pkalg (cc_manip c) = s -> s <> [] ->
+       exists zs ns, oid_from_string s = Some zs /\ arcs_to_N zs = Some ns /\ sp_alg (t_spki t) = mkAlg ns None) /\
+    (forall v, m_version (cc_manip c) = Some v -> t_version t = v).
+Proof. exact (fun sha1 c o iss t => manipulated_oids_exact cur_fx cur_mfx sha1 c o iss t eq_refl). Qed.
+Print Assumptions C19_named_algorithms_exact.
+
+(* outer manipulations leave the signed bytes untouched: the to-be-signed part is the same whatever the outer signature
+   algorithm and the signature value are set to (so the issuer's signature, made before they are applied, covers it) *)
+Theorem C19_outer_manipulations_leave_signed_bytes :
+  forall (fx : fixes) (mfx : more_fixes) (sha1 : bytes -> bytes) (c : cert_cfg) (x y : bytes)
+         (o : observed) (iss : option (list rdn * bytes)) (t t' : tcert),
+    gen_tcert fx mfx sha1 c o iss = Some t ->
+    gen_tcert fx mfx sha1 (with_outer c x y) o iss = Some t' ->
+    enc_tbs t = enc_tbs t'.
+Proof. exact outer_manipulations_leave_tbs. Qed.
+Print Assumptions C19_outer_manipulations_leave_signed_bytes.
